@@ -155,7 +155,8 @@ def parse_aa55_request(d: bytes) -> dict:
 def split_tcp_stream(buf: bytearray):
     """Yield complete MBAP frames from a stream buffer (consumes them)."""
     while len(buf) >= 6:
-        if buf[0:2] == b"\xaa\x55" and len(buf) >= 7:      # an AA55 command written to the stream (ES family on port 502)
+        if buf[0:4] == b"\xaa\x55\xc0\x7f" and len(buf) >= 7:      # an AA55 command written to the stream (ES family on port 502);
+            # (an MBAP frame whose transaction id happens to be 0xAA55 has protocol id 00 00 in bytes 2..3, never C0 7F)
             ln = 3 + buf[6]                                 # bytes after the first 6: length byte, payload, 2 checksum bytes
             if len(buf) < 6 + ln:
                 return
